@@ -138,3 +138,11 @@ package channel
 //@   ensures result == isErrClosing(err)
 //@   ensures err == nil ==> !result
 //@ sentinel[*errors.errorString] ErrClosed
+
+// Direct: a record is whatever was sent, nil included; io.EOF is reported only
+// when the peer has closed (the receive found no value), never for a value
+// that happens to be nil or empty.
+//@ func (direct).Recv
+//@   ensures[C11:direct-eof-only-when-closed] (result1 == nil) == callres("recv#1", 1, "bool")
+//@   ensures[C11:direct-record-as-sent] callres("recv#1", 1, "bool") ==> result0 == callres("recv#1", 0, "bytes")
+//@   ensures[C12:error-no-record] result1 != nil ==> result0 == nil
